@@ -795,6 +795,24 @@ def binop(I_, op, a, b, st, ctx, k, node):
       return k(st, st.alloc("list", list, list(st.obj(a).data) * b))
   if isinstance(a, list) and isinstance(b, Ref) and st.obj(b).kind == "list" and isinstance(op, ast.Add):
     return k(st, st.alloc("list", list, list(a) + list(st.obj(b).data)))
+  # set algebra on modelled sets: a - b, a | b, a & b, a ^ b (a fresh set; elements located as by `in`)
+  if isinstance(a, Ref) and isinstance(b, Ref) and st.obj(a).kind == "set" and st.obj(b).kind == "set" \
+      and isinstance(op, (ast.Sub, ast.BitOr, ast.BitAnd, ast.BitXor)):
+    ea, eb = list(st.obj(a).data.values()), list(st.obj(b).data.values())
+    def build(st2, r):
+      if isinstance(op, ast.BitOr):
+        return set_insert_all(I_, r, eb, st2, ctx, lambda st3: k(st3, r), node)
+      if isinstance(op, ast.Sub):
+        return set_remove_all(I_, r, eb, st2, ctx, lambda st3: k(st3, r), node)
+      if isinstance(op, ast.BitAnd):
+        # a & b = a - (a - b)
+        return new_set(I_, ea, st2, ctx, lambda st3, d: set_remove_all(I_, d, eb, st3, ctx, lambda st4: set_remove_all(
+          I_, r, list(st4.obj(d).data.values()), st4, ctx, lambda st5: k(st5, r), node), node), node)
+      # a ^ b = (a - b) | (b - a)
+      return set_remove_all(I_, r, eb, st2, ctx, lambda st3: new_set(I_, eb, st3, ctx, lambda st4, d: set_remove_all(
+        I_, d, ea, st4, ctx, lambda st5: set_insert_all(I_, r, list(st5.obj(d).data.values()), st5, ctx,
+                                                        lambda st6: k(st6, r), node), node), node), node)
+    return new_set(I_, ea, st, ctx, build, node)
   # user-defined operators
   dn = _DUNDER.get(type(op))
   if dn:
@@ -804,10 +822,32 @@ def binop(I_, op, a, b, st, ctx, k, node):
         f = I_.class_lookup(cls, name)
         if f is not _MISSING and isinstance(f, (types.FunctionType, Closure)):
           return I_.call_value(I_.bind(f, x, cls), [y], {}, st, ctx, k, node)
-  # type errors that Python raises
+  # type errors that Python raises - only where CPython itself says so for operands of these two built-in types; an operator
+  # the evaluator merely does not model is Unsupported (UNDECIDED), never the program's TypeError (2026-09-25: set - set fell
+  # through to here and was reported as a violation of the code under contract)
   ta, tb = _tname(I_, a, st), _tname(I_, b, st)
-  return I_.raise_exc(st, ctx, TypeError, "unsupported operand type(s) for %s: '%s' and '%s'"
-                      % (type(op).__name__, ta, tb), node)
+  try:
+    tya, tyb = type_of(I_, a, st), type_of(I_, b, st)
+  except Exception:
+    tya = tyb = None
+  if tya in _SAMPLES and tyb in _SAMPLES:
+    try:
+      _native_binop(op, _SAMPLES[tya], _SAMPLES[tyb])
+    except TypeError:
+      return I_.raise_exc(st, ctx, TypeError, "unsupported operand type(s) for %s: '%s' and '%s'"
+                          % (type(op).__name__, ta, tb), node)
+    except Exception:
+      pass
+    raise Unsupported("operator %s on '%s' and '%s' is not modelled by the evaluator" % (type(op).__name__, ta, tb))
+  if (tya in _SAMPLES or _class_of_instance(I_, a, st) is not None) and (tyb in _SAMPLES or _class_of_instance(I_, b, st) is not None):
+    # an instance of a class without the operator method (looked up above) and a built-in / another such instance
+    return I_.raise_exc(st, ctx, TypeError, "unsupported operand type(s) for %s: '%s' and '%s'"
+                        % (type(op).__name__, ta, tb), node)
+  raise Unsupported("operator %s on '%s' and '%s' is not modelled by the evaluator" % (type(op).__name__, ta, tb))
+
+
+_SAMPLES = {int: 1, bool: True, float: 1.5, str: "a", bytes: b"a", bytearray: bytearray(b"a"), list: [1], tuple: (1,),
+            dict: {1: 1}, set: set([1]), frozenset: frozenset([1]), type(None): None}
 
 
 _DUNDER = {ast.Add: "add", ast.Sub: "sub", ast.Mult: "mul", ast.BitAnd: "and", ast.BitOr: "or",
